@@ -91,7 +91,8 @@ func (o *MergeAndSortRulesOptimizer) Optimize(rules []*config_parser.RoutingRule
 		if len(mergingRule.AndFunctions) == 1 &&
 			len(rules[i].AndFunctions) == 1 &&
 			mergingRule.AndFunctions[0].Name == rules[i].AndFunctions[0].Name &&
-			mergingRule.AndFunctions[0].Not == rules[i].AndFunctions[0].Not &&
+			// Negated rules must not be merged: !f(a) || !f(b) is not !f(a, b).
+			!mergingRule.AndFunctions[0].Not && !rules[i].AndFunctions[0].Not &&
 			rules[i].Outbound.String(true, false, true) == mergingRule.Outbound.String(true, false, true) {
 			mergingRule.AndFunctions[0].Params = append(mergingRule.AndFunctions[0].Params, rules[i].AndFunctions[0].Params...)
 		} else {
